@@ -323,7 +323,7 @@ def run(prog: Program, res: Result) -> None:
                     continue
                 # rank of a tuple of columns: self._df_fit[[..]].apply(tuple, axis=1).rank(...)
                 if isinstance(srcx, ast.Call) and isinstance(srcx.func, ast.Attribute) and srcx.func.attr == "apply" \
-                        and srcx.args and dotted(srcx.args[0]) == "tuple":
+                        and dotted((list(srcx.args) + [k.value for k in srcx.keywords if k.arg == "func"] + [None])[0]) == "tuple":
                     cols = col_of(srcx.func.value)
                     if isinstance(cols, list) and all(coltype.get(c) == "RANK" for c in cols):
                         ok = kind == "const" and val is True
